@@ -484,6 +484,49 @@ fn main() {
         },
     );
 
+    // ---------------------------------------------------------------- strings, second alphabet
+    // characters whose case mapping changes the length (İ, ǆ, ﬁ, ß is in the first alphabet), a
+    // combining mark, a character outside the BMP, other Unicode blanks, tab, a BOM
+    let uchars: Vec<char> = vec!['a', ' ', 'İ', 'ǆ', 'ﬁ', '\u{301}', '😀', '\u{a0}', '\u{2003}', '\t', '\u{feff}', 'Σ'];
+    let umax: u32 = if thorough { 3 } else { 2 };
+    let mut n_ustrings = 0u64;
+    for l in 0..=umax {
+        n_ustrings += (uchars.len() as u64).pow(l);
+    }
+    let nth_ustring = |mut i: u64| -> String {
+        let k = uchars.len() as u64;
+        let mut l = 0u32;
+        while i >= k.pow(l) {
+            i -= k.pow(l);
+            l += 1;
+        }
+        let mut cs = vec![];
+        for _ in 0..l {
+            cs.push(uchars[(i % k) as usize]);
+            i /= k;
+        }
+        cs.iter().rev().collect()
+    };
+    run.family(
+        Family::new(
+            "strings-unicode",
+            n_ustrings,
+            &format!("all {n_ustrings} strings of length <= {umax} over {} characters (case mappings that change the length, a combining mark, a non-BMP character, Unicode blanks, tab, BOM) x the same {} calls", uchars.len(), probes.len()),
+        )
+        .describe(|i| json!({"receiver": format!("{:?}", nth_ustring(i))})),
+        |item, acc: &mut Acc| {
+            let env = Env::new(&tera);
+            let recv = V::s(&nth_ustring(item));
+            let one = V::I64(1);
+            for (pi, (bi, args)) in probes.iter().enumerate() {
+                let b = &bs[*bi];
+                let names: Vec<String> = (0..b.kws.len()).map(|i| format!("a{i}")).collect();
+                let refs: Vec<&Arg> = args.iter().collect();
+                run_case(&env, b, &recv, &refs, &names, &one, item % 31 == 7 && pi % 13 == 5, false, acc);
+            }
+        },
+    );
+
     // ---------------------------------------------------------------- partition
     let pr = spec::partition_receivers();
     run.extra("partition_values", json!(pr.len()));
